@@ -60,6 +60,45 @@ func c19aV4(rng *verifkit.Rand) netip.Addr {
 	return netip.AddrFrom4([4]byte{127, byte(1 + rng.Intn(250)), byte(rng.Intn(256)), byte(rng.Intn(256))})
 }
 
+// c19aNet6 / c19aShort4: default routes and very short prefixes of each family. An IPv6 network
+// never covers an IPv4 (or IPv4-mapped) destination and vice versa.
+func c19aNet6(rng *verifkit.Rand) netip.Prefix {
+	return netip.MustParsePrefix([]string{"::/0", "::/0", "::/0", "::/1", "8000::/1", "::/8", "::/64", "::1/128", "fd00::/8", "2000::/3"}[rng.Intn(10)])
+}
+
+func c19aShort4(rng *verifkit.Rand) netip.Prefix {
+	return netip.MustParsePrefix([]string{"0.0.0.0/0", "0.0.0.0/1", "0.0.0.0/2", "64.0.0.0/2", "128.0.0.0/1", "127.0.0.0/8", "126.0.0.0/7", "0.0.0.0/8"}[rng.Intn(8)])
+}
+
+// c19aAnyNet: mostly networks inside 127/8, sometimes a default/short prefix of either family.
+func c19aAnyNet(rng *verifkit.Rand, fam int) netip.Prefix {
+	switch {
+	case fam == 1:
+		return c19aNet6(rng)
+	case fam == 2 && rng.Bool():
+		return c19aShort4(rng)
+	}
+	switch rng.Intn(10) {
+	case 0, 1:
+		return c19aNet6(rng)
+	case 2:
+		return c19aShort4(rng)
+	}
+	return c19aNet(rng)
+}
+
+func c19aOnlyFamily(nets []netip.Prefix, v4 bool) bool {
+	if len(nets) == 0 {
+		return false
+	}
+	for _, p := range nets {
+		if (p.Addr().Is4() || p.Addr().Is4In6()) != v4 {
+			return false
+		}
+	}
+	return true
+}
+
 func c19aNet(rng *verifkit.Rand) netip.Prefix {
 	base := c19aV4(rng)
 	if rng.Chance(1, 4) {
@@ -76,6 +115,9 @@ func c19aNet(rng *verifkit.Rand) netip.Prefix {
 
 // c19aSpell: one of several spellings of the same network.
 func c19aSpell(p netip.Prefix, rng *verifkit.Rand) string {
+	if !p.Addr().Is4() {
+		return p.String()
+	}
 	switch rng.Intn(4) {
 	case 0:
 		return fmt.Sprintf("::ffff:%s/%d", p.Addr(), 96+p.Bits())
@@ -90,6 +132,10 @@ func c19aSpell(p netip.Prefix, rng *verifkit.Rand) string {
 }
 
 func c19aEdge(p netip.Prefix, rng *verifkit.Rand) netip.Addr {
+	if !p.Addr().Is4() || p.Bits() < 8 {
+		// IPv6 network (cross-family probe) or a prefix shorter than the observable 127/8
+		return c19aV4(rng)
+	}
 	b := p.Masked().Addr().As4()
 	first := uint32(b[0])<<24 | uint32(b[1])<<16 | uint32(b[2])<<8 | uint32(b[3])
 	size := uint64(1) << uint(32-p.Bits())
@@ -120,7 +166,7 @@ func c19aInAny(a netip.Addr, nets []netip.Prefix) bool {
 
 func TestVerif_C19Agent(t *testing.T) {
 	r := verifkit.Start(t, "C19", "agent")
-	r.Rule("real Agent per case (exit enabled or promoted on demand; 0-3 static networks, 0-2 domain patterns, sometimes nothing configured) x PRNG ManageRoute histories " +
+	r.Rule("real Agent per case (exit enabled or promoted on demand; 0-3 static networks incl. default routes and very short prefixes of either family, IPv6-only and IPv4-only exits probed with destinations of the other family, 0-2 domain patterns, sometimes nothing configured) x PRNG ManageRoute histories " +
 		"(add, add-again with another metric/spelling, remove, remove-absent, remove-static, list) x crafted STREAM_OPEN frames (IPv4, IPv6/IPv4-mapped, domain-typed names and IP literals) through Agent.handleStreamOpen; " +
 		"non-trivial = history with >=1 connected probe, >=1 refused probe and >=1 dynamic route change; distinct by (config, steps)")
 	r.Assume("route management calls are sequential (the property quantifies over histories); 'currently present dynamic routes' = the answer of ManageRoute(\"list\") taken immediately before the probe")
@@ -154,6 +200,8 @@ func TestVerif_C19Agent(t *testing.T) {
 	r.Require("manage_remove_after_readd", 15)
 	r.Require("probes_into_removed_route", 60)
 	r.Require("nothing_configured_probes", 20)
+	r.Require("refused_ipv4_dest_by_ipv6_only_config", 60)
+	r.Require("ipv6_literal_not_permitted", 20)
 }
 
 func c19aHistory(r *verifkit.R, ci int, rng *verifkit.Rand, sink *kitSink, dns *kitDNS, root string) {
@@ -171,12 +219,25 @@ func c19aHistory(r *verifkit.R, ci int, rng *verifkit.Rand, sink *kitSink, dns *
 	var static []netip.Prefix
 	var patterns []string
 	mode := rng.Intn(8) // 0: nothing configured, exit disabled; 1: exit enabled with nothing; else enabled + routes
+	// family mode: 0 mixed, 1 IPv6-only exit (IPv4 / IPv4-mapped / resolved destinations must all be
+	// refused), 2 IPv4 exit of default/short prefixes (IPv6 destinations must be refused)
+	fam := 0
+	switch rng.Intn(8) {
+	case 0, 1:
+		fam = 1
+	case 2:
+		fam = 2
+	}
 	if mode >= 1 {
 		cfg.Exit.Enabled = true
 	}
 	if mode >= 2 {
-		for i, k := 0, rng.Intn(4); i < k; i++ {
-			p := c19aNet(rng)
+		k := rng.Intn(4)
+		if fam != 0 && k == 0 {
+			k = 1
+		}
+		for i := 0; i < k; i++ {
+			p := c19aAnyNet(rng, fam)
 			static = append(static, p)
 			cfg.Exit.Routes = append(cfg.Exit.Routes, p.String())
 		}
@@ -282,8 +343,8 @@ func c19aHistory(r *verifkit.R, ci int, rng *verifkit.Rand, sink *kitSink, dns *
 			ip := pick()
 			b := ip.As16() // ::ffff:a.b.c.d
 			addrType, addr, reqTxt, typ = protocol.AddrTypeIPv6, b[:], "::ffff:" + ip.String(), "ipv6-mapped"
-		case k < 12:
-			ip := netip.MustParseAddr([]string{"::1", "::", "fd00::1"}[rng.Intn(3)])
+		case k < 12 || (fam == 2 && k < 17):
+			ip := netip.MustParseAddr([]string{"::1", "::", "fd00::1", "2001:db8::1", "fe80::1"}[rng.Intn(5)])
 			b := ip.As16()
 			addrType, addr, reqTxt, typ = protocol.AddrTypeIPv6, b[:], ip.String(), "ipv6"
 		case k < 15: // domain-typed carrying an IP literal
@@ -323,6 +384,7 @@ func c19aHistory(r *verifkit.R, ci int, rng *verifkit.Rand, sink *kitSink, dns *
 		}
 		st := c19aStep{Op: "probe", Req: reqTxt, Type: typ, Listed: listedTxt}
 		expectReply := a.exitHandler != nil && a.exitHandler.IsRunning()
+		dialErrCode := false // the answer is one of the protocol's connection-level error codes
 		a.handleStreamOpen(peer, frame)
 		if unknownType {
 			// the frame decoder may drop it (no reply) or the exit may answer: wait only if an answer shows up at once
@@ -339,6 +401,10 @@ func c19aHistory(r *verifkit.R, ci int, rng *verifkit.Rand, sink *kitSink, dns *
 				st.Reply = "ack"
 			} else {
 				st.Reply = fmt.Sprintf("err %d", rp.ErrCode)
+				switch rp.ErrCode {
+				case protocol.ErrConnectionRefused, protocol.ErrConnectionTimeout, protocol.ErrHostUnreachable, protocol.ErrNetworkUnreachable:
+					dialErrCode = true
+				}
 			}
 		} else if !unknownType {
 			st.Reply = "no-exit-handler"
@@ -365,11 +431,35 @@ func c19aHistory(r *verifkit.R, ci int, rng *verifkit.Rand, sink *kitSink, dns *
 			lit = x.Unmap()
 		}
 		if len(accs) == 0 {
+			// Decision-level side monitor (see the handler part): a pure IPv6 literal that no present
+			// network covers, answered with a connection-level error code, was let through to the dial.
+			if typ == "ipv6" && lit.IsValid() && lit.Is6() {
+				r.Add("ipv6_literal_probes", 1)
+				if !c19aInAny(lit, nets) {
+					r.Add("ipv6_literal_not_permitted", 1)
+					if dialErrCode {
+						class := "outside-every-network"
+						if len(nets) == 0 && len(patterns) == 0 {
+							class = "nothing-present"
+						} else if c19aOnlyFamily(nets, true) {
+							class = "ipv4-only-configuration"
+						}
+						steps = append(steps, st)
+						r.Violation("dial-attempted-not-permitted:ipv6-literal:"+class, "hist", ci,
+							fmt.Sprintf("STREAM_OPEN for the IPv6 address %s, which lies in none of the configured networks %v nor of the dynamic routes %v, was answered with connection-level error %s: the exit went on to dial it", reqTxt, static, listedTxt, st.Reply),
+							map[string]any{"exit_enabled": cfg.Exit.Enabled, "static": cfg.Exit.Routes, "patterns": patterns, "steps": steps})
+						return true
+					}
+				}
+			}
 			if lit.IsValid() && c19aInAny(lit, nets) {
 				r.Add("refused_although_literal_in_network", 1)
 			} else {
 				r.Add("refused_not_permitted", 1)
 				nRef++
+				if c19aOnlyFamily(nets, false) {
+					r.Add("refused_ipv4_dest_by_ipv6_only_config", 1)
+				}
 			}
 			steps = append(steps, st)
 			return true
@@ -401,6 +491,8 @@ func c19aHistory(r *verifkit.R, ci int, rng *verifkit.Rand, sink *kitSink, dns *
 			// structural class of the failure: the precondition the harness can compute itself
 			class := "outside-every-network:" + typ
 			switch {
+			case c19aOnlyFamily(nets, false):
+				class = "ipv6-only-configuration:" + typ
 			case c19aInAny(ac.Dest, removedReadded):
 				class = "removed-dynamic-route-that-had-been-re-added"
 			case c19aInAny(ac.Dest, removedNow):
@@ -470,7 +562,7 @@ func c19aHistory(r *verifkit.R, ci int, rng *verifkit.Rand, sink *kitSink, dns *
 		sort.Strings(keys)
 		switch c := rng.Intn(20); {
 		case c < 2: // add new
-			manage("add", c19aNet(rng), uint16(rng.Intn(5)))
+			manage("add", c19aAnyNet(rng, fam), uint16(rng.Intn(5)))
 		case c < 5 && len(keys) > 0: // add again (metric update), possibly in another spelling
 			manage("add", model[keys[rng.Intn(len(keys))]], uint16(rng.Intn(50)))
 		case c < 7 && len(keys) > 0: // remove a dynamic route, then aim probes at it
@@ -485,7 +577,7 @@ func c19aHistory(r *verifkit.R, ci int, rng *verifkit.Rand, sink *kitSink, dns *
 			if len(static) > 0 && rng.Bool() {
 				manage("remove", static[rng.Intn(len(static))], 0)
 			} else {
-				manage("remove", c19aNet(rng), 0)
+				manage("remove", c19aAnyNet(rng, fam), 0)
 			}
 		case c == 8 && len(static) > 0: // add a static network dynamically (must not change anything)
 			manage("add", static[rng.Intn(len(static))], uint16(rng.Intn(5)))
